@@ -5,6 +5,7 @@ package main
 import (
 	"fmt"
 	"go/types"
+	"sort"
 	"strings"
 
 	"golang.org/x/tools/go/ssa"
@@ -59,6 +60,32 @@ func (x *Exec) doCallVals(st *State, fr *Frame, in ssa.Instruction, c *ssa.CallC
 	if f, ok := fv.(*FuncVal); ok && f.Fn != nil {
 		if sf, ok := f.Fn.(*ssa.Function); ok {
 			x.callFunc(st, fr, in, sf, args, f.Bind, k)
+			return
+		}
+	}
+	if f, ok := fv.(*FuncVal); ok && f.Sym != nil {
+		// call through a function value that is not known statically: dispatch over the repository's top-level functions of
+		// exactly this signature; that the value is one of them is an obligation here
+		var cands []*ssa.Function
+		for _, p := range x.W.SSAPkg {
+			for _, m := range p.Members {
+				if fn, ok := m.(*ssa.Function); ok && fn.Blocks != nil && fn.Signature.Recv() == nil && types.Identical(fn.Signature, c.Signature()) {
+					cands = append(cands, fn)
+				}
+			}
+		}
+		sort.Slice(cands, func(i, j int) bool { return funcKey(cands[i]) < funcKey(cands[j]) })
+		if len(cands) > 0 && len(cands) <= 8 {
+			var any []*Term
+			for _, fn := range cands {
+				any = append(any, Eq(f.Sym, x.funcID(fn)))
+			}
+			x.safety(st, "funcvalue", in, Or(any...), fmt.Sprintf("the function value called is one of the repository's %d functions of this signature", len(cands)))
+			for i, fn := range cands {
+				st2 := st.Clone()
+				st2.Assume(any[i])
+				x.callFunc(st2, fr, in, fn, args, nil, k)
+			}
 			return
 		}
 	}
@@ -427,6 +454,9 @@ func (x *Exec) invokeSymbolic(st *State, fr *Frame, in ssa.Instruction, c *ssa.C
 	}
 	if intr, ok := ifaceIntrinsics[key]; ok {
 		k(st, intr(x, st, fr, in, iv, args))
+		return
+	}
+	if x.invokeDispatch(st, fr, in, c, iv, args, k) {
 		return
 	}
 	x.fail(fmt.Sprintf("interface method %s without a contract at %s", key, x.posOf(in)))
